@@ -46,12 +46,16 @@ CLAIMED = {
  "C13": dict(engine="e3-apiseq", design="4/C13",
    text="Breadth-first search to closure over the reachable states of the real simulator (M=4, P=2, 3 cycles, <=3 warriors of 3 kinds) under AddWarrior, SpawnWarrior(i in -1..n+1, off in {0,M-1,M,2M+3}), RunCycle, Run, Reset; after every call the result and the full query battery (run twice) are compared with a reference state machine, every call runs under a non-return watchdog, and in every distinct state Reset+respawn is compared with a fresh simulator over all continuation sequences up to a bound.",
    technique="explicit-state BFS over the real transition function with state hashing + lock-step reference state machine + reset/fresh differential"),
+ "C05": dict(engine="e6-termination (instrumented build) + free-running pass", design="4/C05",
+   text="Every lexeme string up to a length bound over a 24-lexeme alphabet (incl. NUL, ^Z, invalid UTF-8, CR-LF), every 1- and 2-token mutation of 12 seed programs, every reader chunking / read error up to a deviation bound and every producer/consumer schedule of the lexer and FOR-expander goroutines up to a preemption bound are assembled on the instrumented build under a controlled scheduler: non-return is a deterministic step-budget verdict, a leaked goroutine is a thread still blocked when all others finished; err xor warrior and no panic are checked on every execution; a scaling family checks the step count against a linear budget; a free-running pass on the plain build re-checks goroutine counts.",
+   technique="stateless exploration under a controlled scheduler (preemption / deviation bounded DFS) + bounded exhaustive input enumeration with a deterministic step budget"),
 }
 
 PENDING = {
 }
 
 ENGINES = [
+ {"name": "e6-termination", "path": "/verif/mc/engines/e6", "serves_properties": ["C05", "C06"], "kind_free_text": "controlled scheduler (verif/mc/sched) over the instrumented build generated by verif/mc/cmd/vinst; token soup, mutations, reader chunkings, schedules"},
  {"name": "e3-apiseq", "path": "/verif/mc/engines/e3", "serves_properties": ["C13"], "kind_free_text": "explicit-state breadth-first search over API call sequences on the real simulator"},
  {"name": "e5-loadfiles", "path": "/verif/mc/engines/e5", "serves_properties": ["C09", "C10", "C16"], "kind_free_text": "canonical load-file printer, layout perturbation and corruption enumerators, listing reader"},
  {"name": "e4-asm", "path": "/verif/mc/engines/e4", "serves_properties": ["C03", "C06", "C07", "C08"], "kind_free_text": "grammar-directed exhaustive generation of assembler inputs with by-construction meaning"},
